@@ -65,6 +65,26 @@ def run(tier, seed):
             if got != want:
                 rep.violation("C15:batch-differs-from-elementwise", "call_batch returned %r, individual calls return %r" % (got, want),
                               {"backend": kind0, "elements": [leaf[k]["id"] for k in order], "pre_memoized": [leaf[k]["id"] for k in pre0], "batch_result": got, "elementwise": want})
+            # an element that fails because it names a keyword the function does not declare is a failing element like any other:
+            # its slot gets the exception, the other slots get their values (and are memoized)
+            leaf3 = [{"id": base + 80 + k} for k in range(3)]
+            kws = [{"spec": leaf3[0]}, {"spek": leaf3[1]}, {"spec": leaf3[2]}, {"spec": leaf3[0]}]
+            try:
+                got3 = [("exc", type(x).__name__) if isinstance(x, BaseException) else ("val", norm_result(x)) for x in fnmod.n1.call_batch(kws, raise_first_exception=False)]
+            except Exception as e:
+                got3 = "raised %s" % type(e).__name__
+            stored3 = [fnmod.n1.memento(**k) is not None for k in (kws[0], kws[2])]
+            want3 = []
+            for k in kws:
+                try:
+                    want3.append(("val", norm_result(fnmod.n1(**k))))
+                except Exception as e:
+                    want3.append(("exc", type(e).__name__))
+            total += 1
+            stats["undeclared_keyword_elements"] = stats.get("undeclared_keyword_elements", 0) + 1
+            if got3 != want3 or stored3 != [True, True]:
+                rep.violation("C15:batch-differs-from-elementwise:undeclared-keyword-element", "a batch with one element naming an undeclared keyword gave %r (good elements memoized: %r); individual calls give %r" % (got3, stored3, want3),
+                              {"backend": kind0, "batch": [sorted(k) for k in kws], "batch_result": got3, "elementwise": want3})
             # raise_first_exception: the exception of the FIRST failing slot, whichever failures were memoized beforehand
             base2 = base + 50
             leaf2 = [{"id": base2 + k} for k in range(4)]
